@@ -334,6 +334,33 @@ func (w *world) step(o hx.T) (any, error) {
 			return nil, err
 		}
 		return w.mapTerm(d)
+	case "OBackScript":
+		if !n.HasBack(o.Int(0)) {
+			return "BIgnored", nil
+		}
+		var steps []e2e.ScriptStep
+		for _, a := range o.List(1) {
+			t := hx.AsTerm(a)
+			switch t.Name {
+			case "ASet":
+				steps = append(steps, e2e.ScriptStep{Kind: "set", K: keyName(t.Int(0)), V: valOf(t.Args[1])})
+			case "APush":
+				steps = append(steps, e2e.ScriptStep{Kind: "push"})
+			case "AQuery":
+				steps = append(steps, e2e.ScriptStep{Kind: "query"})
+			default:
+				return nil, fmt.Errorf("c10: bad act %s", t.Name)
+			}
+		}
+		acks, err := n.BackScript(o.Int(0), steps)
+		if err != nil {
+			return nil, err
+		}
+		l := []any{}
+		for _, a := range acks {
+			l = append(l, a)
+		}
+		return hx.C("BAcks", l), nil
 	case "OBackPush", "OBackQuery":
 		if !n.HasBack(o.Int(0)) {
 			return "BIgnored", nil
